@@ -5,7 +5,6 @@ package main
 
 import (
 	"fmt"
-	"go/token"
 	"sort"
 	"strings"
 
@@ -32,7 +31,7 @@ func identityRule(c *Ctx, m *Module, rule string) {
 		got := map[string]bool{}
 		for _, f := range factsAt(ret) {
 			bo, ok := f.Cond.(*ssa.BinOp)
-			if !ok || bo.Op != token.EQL || !f.Pol {
+			if !ok || !assertsEq(bo, f.Pol) {
 				continue
 			}
 			for _, pair := range [][2]ssa.Value{{bo.X, bo.Y}, {bo.Y, bo.X}} {
